@@ -71,7 +71,7 @@ func init() {
 		ID: "T01", NeedCG: true, Quick: cfgAMD, Thorough: cfgAll,
 		Explanation: "scratch",
 		Run: func(w *World, r *Report, tier string) {
-			guard(r, "RACE", func() { ruleRACE(w, r) })
+			guard(r, "OWN", func() { ruleOWN(w, r, ownOpts{true, true, true}) })
 		},
 	})
 }
